@@ -7,17 +7,23 @@
 set -u
 mode="${1:-clean}"; tier="${2:-quick}"
 cd "$(dirname "$0")/.."
+# the tree that is patched: /repo, or a snapshot (then mc/elf-src of this /verif copy is re-pointed at it)
+REPO="${SELFTEST_REPO:-/repo}"
+if [ "$REPO" != "/repo" ]; then ln -sfn "$REPO" mc/elf-src; fi
+# evidence of runs on patched trees must not overwrite the committed evidence
+export MC_EVIDENCE_DIR="$(mktemp -d /tmp/selftest_evidence.XXXXXX)"
 ALL="C01 C02 C03 C04 C05 C06 C07 C08 C09 C10 C11 C12 C13 C14 C15 C16 C17 C18 C19 C20"
 fail=0
-restore() { git -C /repo checkout -- . ; }
-trap restore EXIT
-if [ -n "$(git -C /repo status --porcelain --untracked-files=no)" ]; then echo "/repo not clean"; exit 2; fi
+restore() { git -C "$REPO" checkout -- . ; }
+cleanup() { restore; rm -rf "$MC_EVIDENCE_DIR"; }
+trap cleanup EXIT
+if [ -n "$(git -C "$REPO" status --porcelain --untracked-files=no)" ]; then echo "$REPO not clean"; exit 2; fi
 case "$mode" in
 clean)
   for p in $ALL; do ./check $p --tier $tier >/dev/null 2>&1; c=$?; echo "clean $p exit=$c"; [ $c = 0 ] || fail=1; done;;
 benign)
   for d in selftest/benign/*.diff; do
-    git -C /repo apply "$PWD/$d" || { echo "cannot apply $d"; fail=1; continue; }
+    git -C "$REPO" apply "$PWD/$d" || { echo "cannot apply $d"; fail=1; continue; }
     for p in $ALL; do
       out=$(./check $p --tier $tier 2>&1); c=$?
       echo "benign $(basename $d .diff) $p exit=$c"
@@ -33,7 +39,7 @@ import json;m=json.load(open('$d/meta.json'))
 det=m.get('detected_by') or {}
 ps=sorted({k.split(':')[0] for k,v in det.items() if v['exit']==1}) or [m['property']]
 print(' '.join(ps))")
-    git -C /repo apply "$PWD/$d/patch.diff" || { echo "cannot apply $n"; fail=1; continue; }
+    git -C "$REPO" apply "$PWD/$d/patch.diff" || { echo "cannot apply $n"; fail=1; continue; }
     for p in $props; do
       timeout 1200 ./check $p --tier $tier >/dev/null 2>&1; c=$?
       echo "seed $n $p exit=$c"; [ $c = 1 ] || fail=1
